@@ -409,6 +409,11 @@ pub fn generate(rng: &mut Rng, focus: &str, thorough: bool) -> Case {
         if trace.len() < 3 {
             trace = vec![(1.0, 0.5), (1.0, 1.0), (1.0, 0.5)];
         }
+        // C14: a trace containing a negative speed must be rejected (at that step at the latest)
+        if rng.chance(0.05) {
+            let j = rng.usize(0, trace.len() - 1);
+            trace[j].1 = -*rng.pick(&[0.01, 0.5, 3.0]);
+        }
         Kind::SetSpeed { v0, trace, shipped_walk: rng.chance(0.4) }
     } else {
         let dt = *rng.pick(&[1.0, 1.0, 1.0, 0.5, 2.0]);
@@ -634,6 +639,76 @@ fn check_resistance(ctx: &mut Ctx, tr: &Traj, links: &[Link], route: &[usize], r
             if (f0 - b0).abs() > 1e-9 {
                 ctx.hit("probe.res.front_and_rear_on_different_grades");
             }
+        }
+    }
+}
+
+/// C07 "backward evaluation during braking-curve construction": the resistance model's cached front / rear
+/// indices are driven the way `BrakingPoints::recalc` drives them - jump to the end of the path, sweep
+/// backwards in steps from millimetres to kilometres (several breakpoints per step, zero-length steps),
+/// return forwards - on a copy of the run's own resistance object, i.e. starting from whatever cache
+/// state the run left behind (incl. after a crash/restore or a path extension re-based it).
+fn check_backward_sweep(ctx: &mut Ctx, state: &TrainState, train_res: &TrainRes, path: &PathTpc, links: &[Link], route_delivered: &[usize], r: &TrainRef, seed: u64) {
+    use altrios_core::lin_search_hint::Dir;
+    let mut rng = Rng::new(seed ^ 0xbac4_5eed);
+    let mut tr = train_res.clone();
+    let path_len: f64 = route_delivered.iter().map(|l| links[*l].length.value).sum();
+    let end = path.offset_end().value.min(path_len);
+    if end < r.length + 1.0 {
+        return;
+    }
+    let mut states: Vec<TrainState> = vec![];
+    let mut cur = *state;
+    let mut x = end;
+    let mut dirs: Vec<&'static str> = vec![];
+    cur.offset = x * uc::M;
+    cur.speed = 0.0 * uc::MPS;
+    states.push(cur);
+    let mut dir = Dir::Unk;
+    let mut name = "Unk";
+    let mut going_back = true;
+    for _ in 0..rng.usize(8, 60) {
+        let mut st = *states.last().unwrap();
+        if let Err(e) = tr.update_res(&mut st, path, &dir) {
+            ctx.violate("C07", "resistance", "backward evaluation succeeds inside the path", format!("update_res({name}) at front {x} m (path 0..{end}, train {} m): {}", r.length, first(&e)));
+            return;
+        }
+        dirs.push(name);
+        // next position
+        let step = match rng.below(6) {
+            0 => 0.0,
+            1 => rng.range(0.001, 0.5),
+            2 | 3 => rng.range(1.0, 60.0),
+            4 => rng.range(60.0, 600.0),
+            _ => rng.range(600.0, 4000.0),
+        };
+        if going_back {
+            if x - step < r.length + 1e-3 {
+                going_back = false;
+            } else {
+                x -= step;
+            }
+            dir = Dir::Bwd;
+            name = "Bwd";
+        }
+        if !going_back {
+            x = (x + step).min(end);
+            dir = Dir::Fwd;
+            name = "Fwd";
+        }
+        st.offset = x * uc::M;
+        st.speed = rng.range(0.0, 25.0) * uc::MPS;
+        states.push(st);
+    }
+    ctx.hit("probe.res.backward_sweep");
+    let n0 = ctx.viol.len();
+    let synth = Traj { states, con: vec![], auth_end: vec![], delivered: vec![] };
+    check_resistance(ctx, &synth, links, route_delivered, r);
+    for v in ctx.viol.iter_mut().skip(n0) {
+        if v.property == "C07" {
+            let k = v.event;
+            v.detail = format!("backward sweep (directions {:?}): {}", &dirs[k.saturating_sub(3).min(dirs.len())..k.min(dirs.len())], v.detail);
+            v.sig.insert("backward_sweep".into(), true.into());
         }
     }
 }
@@ -991,6 +1066,17 @@ pub fn execute(case: &Case, ctx: &mut Ctx) {
                 ctx.hit_dyn(format!("note.setspeed_err: {}", first(e).chars().take(70).collect::<String>()));
                 ctx.hit("stat.runs_ended_with_err");
             }
+            if let Some(j) = trace.iter().position(|x| x.1 < 0.0) {
+                ctx.hit("fault.trace.negative_speed");
+                // the step that would adopt trace entry j is step number j + 1 (state.i counts from 1)
+                let executed = sim.state.i.saturating_sub(1);
+                if err.is_none() || executed > j {
+                    ctx.violate("C14", "set_speed", "a trace containing a negative speed is rejected", format!("trace[{j}] = {} m/s: run {} after {executed} executed steps", trace[j].1, if err.is_none() { "ended Ok" } else { "failed only" }));
+                }
+                if tr.states.iter().any(|s| s.speed.value < 0.0) {
+                    ctx.violate("C14", "set_speed", "a trace containing a negative speed is rejected", "a state with negative speed was recorded".into());
+                }
+            }
             for s in &tr.states {
                 ctx.trace.f(s.offset.value);
                 ctx.trace.f(s.pwr_whl_out.value);
@@ -1006,6 +1092,10 @@ pub fn execute(case: &Case, ctx: &mut Ctx) {
                 check_set_speed(ctx, &tr, *v0, trace, case.init_time, &con_init);
                 check_kinematics(ctx, &tr, links, &route, r.length);
                 check_resistance(ctx, &tr, links, &route, &r);
+                // (the set-speed simulation keeps its path private: read it the way a user would, from a saved copy)
+                if let Some(path) = serde_yaml::to_value(&sim).ok().and_then(|v| v.get("path_tpc").cloned()).and_then(|v| serde_yaml::to_string(&v).ok()).and_then(|y| <PathTpc as altrios_core::traits::SerdeAPI>::from_yaml(y).ok()) {
+                    check_backward_sweep(ctx, &sim.state, &sim.train_res, &path, links, &route, &r, case.hash_seed);
+                }
                 check_levels(ctx, &tr);
                 let _ = full_monitors;
             }
@@ -1102,6 +1192,8 @@ pub fn execute(case: &Case, ctx: &mut Ctx) {
                 check_limit_run(ctx, tr, links, &route, &case.train, &r);
                 check_kinematics(ctx, tr, links, &route, r.length);
                 check_resistance(ctx, tr, links, &route, &r);
+                let n_deliv = tr.delivered.last().copied().unwrap_or(route.len()).min(route.len());
+                check_backward_sweep(ctx, &sim.state, &sim.train_res, &sim.path_tpc, links, &route[..n_deliv], &r, case.hash_seed);
                 check_levels(ctx, tr);
             }
             if result.is_ok() {
